@@ -268,6 +268,91 @@ def install(handler, g):
                 except Exception as e:
                     msgs.append(f"{label}: {type(e).__name__}: {e}")
             return bool(msgs), "; ".join(msgs)[:400] or "pruning rewrites nested uses"
+        helper = rj["function"].rsplit(".", 1)[-1]
+        cfg = rj.get("cfg") or {}
+        if helper in ("prune_non_float_tensors", "prune_same_scale_tensors", "prune_selected_nodes") and "user" in cfg:
+            # the generic-node graph of contracts/jobs_prune.py as a real torch.fx graph
+            import operator
+
+            def sel_fn(*a, **k):
+                return a[0]
+
+            def kept_fn(*a, **k):
+                return a[0]
+
+            def earlier_op(*a, **k):
+                return a[0]
+
+            def consumer(*a, **k):
+                return a[0]
+
+            shapes = {
+                "positional": lambda n, o: ((n, o), {}),
+                "keyword": lambda n, o: ((o,), {"other": n}),
+                "nested_list": lambda n, o: (([o, n],), {"dim": 0}),
+                "index_tuple": lambda n, o: ((o, (slice(None), n)), {}),
+            }
+            nN, nOut = ("output", "output_1") if cfg.get("names") == "user_variable_called_output" else ("N", "output")
+            msgs = []
+            variants = [("same", 1.0, 1.0), ("different", 1.0, 2.0)] if helper == "prune_same_scale_tensors" else [("-", 1.0, 2.0)]
+            for vname, mN, mA in variants:
+                g = fx.Graph()
+                x = g.placeholder("x")
+                idx = g.placeholder("idx")
+                prev = g.call_function(earlier_op, (x,))
+                prev.name = "earlier"
+                fa = cfg.get("float_args", 1)
+                nargs = {0: (idx,), 1: (prev, idx), 2: (prev, x)}[fa]
+                tgt = (sel_fn if cfg.get("selected") else kept_fn) if helper == "prune_selected_nodes" else operator.neg
+                node = g.call_function(tgt, nargs)
+                node.name = nN
+                a, k = shapes[cfg.get("user", "positional")](node, prev)
+                cons = g.call_function(consumer, a, k)
+                cons.name = "consumer"
+                out = g.output((cons,))
+                out.name = nOut
+                D = ts.Metrics.Data
+                for n in g.nodes:
+                    n.meta["clean_name"] = n.name
+                    n.meta["outputs_float_tensor"] = n.name != "idx" and n.op != "output"
+                node.meta["outputs_float_tensor"] = cfg.get("node_is_float", True)
+                if helper == "prune_same_scale_tensors":
+                    vals = {"x": 7.0, "earlier": mA, nN: mN, "consumer": 13.0}
+                    for n in g.nodes:
+                        if n.name in vals:
+                            m = ts.Metrics.__new__(ts.Metrics)
+                            m.fwd = D(vals[n.name], 0, 0, 0, 0, 1)
+                            m.bwd = D(vals[n.name], 0, 0, 0, 0, 1) if cfg.get("bwd", "both") == "both" or (cfg.get("bwd") == "only_node" and n is node) or (cfg.get("bwd") == "only_arg" and n is prev) else None
+                            n.meta["metrics"] = m
+                before = [(n.name, n.op) for n in g.nodes]
+                try:
+                    if helper == "prune_non_float_tensors":
+                        res = ts.prune_non_float_tensors(g)
+                    elif helper == "prune_same_scale_tensors":
+                        res = ts.prune_same_scale_tensors(g, rtol=2**-16)
+                    else:
+                        res = ts.prune_selected_nodes(g, [sel_fn])
+                    res.lint()
+                except Exception as e:
+                    msgs.append(f"[{vname}] raises {type(e).__name__}: {e}")
+                    continue
+                names = [n.name for n in res.nodes]
+                removed = nN not in names
+                if helper == "prune_non_float_tensors":
+                    must = not cfg["node_is_float"]
+                elif helper == "prune_selected_nodes":
+                    must = bool(cfg["selected"])
+                else:
+                    bN, bA = node.meta["metrics"].bwd, prev.meta["metrics"].bwd
+                    must = fa == 1 and mN == mA and ((bN is None) == (bA is None))
+                want = [n for n in ["x", "idx", "earlier", nN, "consumer", nOut] if (n != nN or not must) and not (n == "idx" and helper == "prune_non_float_tensors")]
+                if names != want:
+                    msgs.append(f"[{vname}] surviving nodes {names}, documented behaviour keeps {want}")
+                if not any(n.op == "output" for n in res.nodes):
+                    msgs.append(f"[{vname}] the result has no output node")
+                if helper != "prune_selected_nodes" and [(n.name, n.op) for n in g.nodes] != before:
+                    msgs.append(f"[{vname}] the input graph was modified")
+            return bool(msgs), "; ".join(msgs)[:600] or "real helper on the real torch.fx generic-node graph behaves as documented"
         if "same_scale" in ob or "prune_same_scale" in ob:
             D = ts.Metrics.Data
             bad = []
